@@ -43,7 +43,15 @@ class CompileMapper(StringifyMapper):
             elif isinstance(expr, numpy.complexfloating):
                 expr = complex(expr)
 
-        return repr(expr)
+        result = repr(expr)
+
+        # parenthesize signed constants exactly like the base class does
+        if not (result.startswith("(") and result.endswith(")")) \
+                and ("-" in result or "+" in result) \
+                and (enclosing_prec > PREC_SUM):
+            return self.parenthesize(result)
+        else:
+            return result
 
     def map_polynomial(self, expr, enclosing_prec):
         # Use Horner's scheme to evaluate the polynomial
